@@ -486,13 +486,31 @@ GenAttrs(gg, m) ==          \* fault "attrs": malformed deprecated "Attributes:"
          i \in {j \in Indents : j <= gg.ref} }
   ELSE {}
 
-GenNext(gg, m) ==
-  CASE gg.ph = "open"  -> GenIdent(gg, m) \cup GenNoIdent(gg, m)
-    [] gg.ph = "ident" -> GenIdCont(gg, m) \cup GenParam(gg, m) \cup GenSep(gg, m) \cup GenTag(gg, m) \cup GenAttrs(gg, m)
-    [] gg.ph = "param" -> GenPartCont(gg, m) \cup GenPartText(gg, m) \cup GenParam(gg, m) \cup GenSep(gg, m) \cup GenTag(gg, m) \cup GenAttrs(gg, m)
-    [] gg.ph = "desc"  -> GenDescEmpty(gg, m) \cup GenDescText(gg, m) \cup GenTag(gg, m) \cup GenLateParam(gg, m) \cup GenAttrs(gg, m)
-    [] gg.ph = "tag"   -> GenPartCont(gg, m) \cup GenPartText(gg, m) \cup GenTagEmpty(gg, m) \cup GenTag(gg, m) \cup GenLateParam(gg, m) \cup GenAttrs(gg, m)
+\* generator classes (one per kind of line the grammar allows) and the phases in which each may follow
+GenClasses == {"ident", "noident", "idcont", "param", "lateparam", "partcont", "parttext", "sep", "tagempty",
+               "descempty", "desctext", "tag", "attrs"}
+GenClass(c, gg, m) ==
+  CASE c = "ident"     -> GenIdent(gg, m)
+    [] c = "noident"   -> GenNoIdent(gg, m)
+    [] c = "idcont"    -> GenIdCont(gg, m)
+    [] c = "param"     -> GenParam(gg, m)
+    [] c = "lateparam" -> GenLateParam(gg, m)
+    [] c = "partcont"  -> GenPartCont(gg, m)
+    [] c = "parttext"  -> GenPartText(gg, m)
+    [] c = "sep"       -> GenSep(gg, m)
+    [] c = "tagempty"  -> GenTagEmpty(gg, m)
+    [] c = "descempty" -> GenDescEmpty(gg, m)
+    [] c = "desctext"  -> GenDescText(gg, m)
+    [] c = "tag"       -> GenTag(gg, m)
+    [] c = "attrs"     -> GenAttrs(gg, m)
+ClassesAt(ph) ==
+  CASE ph = "open"  -> {"ident", "noident"}
+    [] ph = "ident" -> {"idcont", "param", "sep", "tag", "attrs"}
+    [] ph = "param" -> {"partcont", "parttext", "param", "sep", "tag", "attrs"}
+    [] ph = "desc"  -> {"descempty", "desctext", "tag", "lateparam", "attrs"}
+    [] ph = "tag"   -> {"partcont", "parttext", "tagempty", "tag", "lateparam", "attrs"}
     [] OTHER -> {}
+GenNext(gg, m) == UNION { GenClass(c, gg, m) : c \in ClassesAt(gg.ph) }
 
 -----------------------------------------------------------------------------
 (* ---------------- behaviours ------------------------------------------- *)
